@@ -266,9 +266,10 @@ pub fn run(ctx: &Ctx) -> i32 {
         let cfg = util::ForkCfg {
             threads: ctx.threads,
             mem_bytes: std::env::var("VERIF_MEM_GB").ok().and_then(|s| s.parse::<u64>().ok()).unwrap_or(3) << 30,
-            case_timeout_s: 20,
+            case_timeout_s: 60,
             died_signature: "C02/abort".into(),
         };
+        corpus::warm(profile, n);
         let r = util::par_forked(&cfg, nshards, |sh| sweep(profile, n, sh, &styles));
         sizes.insert(format!("{}:{}", profile.name, n), json!(r.states));
         total.merge(r);
